@@ -8,6 +8,9 @@ PROPS = ['C18', 'C05']
 D = 'src/detector.rs'
 
 MUTANTS = [
+    ('detector::locate_sourcemap_reference', r'if line\.verif_starts_with_str\("//@"\)', 'if line.verif_starts_with_str("//#")'),
+    ('detector::locate_sourcemap_reference', r'verif_from_utf8_tail\(&line, 21\)', 'verif_from_utf8_tail(&line, 20)'),
+    ('detector::locate_sourcemap_reference', r'return Ok\(Some\(SourceMapRef::Ref\(url\)\)\);', '{}'),
     ('detector::SourceMapRef::get_url', r'SourceMapRef::LegacyRef\(ref u\) => u\.as_str\(\)', 'SourceMapRef::LegacyRef(ref u) => ""'),
     ('detector::SourceMapRef::get_embedded_sourcemap', r'Ok\(None\)', 'Ok(Some(decode_data_url(url)?))'),
     ('detector::is_sourcemap_common', r'\|\| rsm\.sections\.is_some\(\)', ''),
@@ -42,7 +45,30 @@ pub fn decode_data_url(url: &str) -> (r: Result<DecodedMap>)
     text = re.sub(r'(?m)^\s*#\[[^\]]*\]\n', '', text)
     u.count('R-attr')
     u.emit_text('jsontypes::MinimalRawSourceMap', text, origin)
+    # the crate's own conversions behind `?` (src/errors.rs), verbatim; FromSpecImpl is vstd's spec side of `From`
+    u.use('use vstd::utf8::*;')
+    u.use('use vstd::string::StringSliceAdditionalSpecFns;')
+    u.use('use std::io::Read;')
+    u.prelude('shim_chars.rs')
+    u.prelude('io_read.rs')
+    u.prelude('shim_lines.rs')
+    for ty, var in [('io::Error', 'Io'), ('str::Utf8Error', 'Utf8')]:
+        text, origin = u.get_item_text('src/errors.rs', r'(?m)^impl From<%s> for Error\b' % re.escape(ty), 'impl From<%s> for Error' % ty)
+        text = text.replace('io::Error', 'std::io::Error').replace('str::Utf8Error', 'std::str::Utf8Error')
+        u.emit_text('errors::From<%s>' % ty, text, origin)
+        u.raw('fromspec ' + ty, '//@@ prelude fromspec_%s\nimpl vstd::std_specs::convert::FromSpecImpl<std::%s> for Error {\n    open spec fn obeys_from_spec() -> bool { true }\n    open spec fn from_spec(e: std::%s) -> Error { Error::%s(e) }\n}\n//@@ endprelude\n' % (var, ty, ty, var))
+    u.spec('utf.rs')
     u.spec('detect.rs')
     emit_method(u, D, r'SourceMapRef\b', 'get_url', 'detector::SourceMapRef::get_url')
     emit_method(u, D, r'SourceMapRef\b', 'get_embedded_sourcemap', 'detector::SourceMapRef::get_embedded_sourcemap', prep=lambda f: str_shims(f, u))
     emit_free_fn(u, D, 'is_sourcemap_common', 'detector::is_sourcemap_common')
+
+    def prep_locate(f):
+        str_shims(f, u)
+        n = f.rewrite(r'BufReader::new\(rdr\)\.lines\(\)', 'verif_buf_lines(rdr)', expect=1)
+        n += f.rewrite(r'str::from_utf8\(&line\.as_bytes\(\)\[21\.\.\]\)', 'verif_from_utf8_tail(&line, 21)', expect=1)
+        n += f.rewrite(r'\.trim\(\)', '.verif_trim()', expect=1)
+        n += f.rewrite(r'\.to_owned\(\)', '.verif_to_owned()', expect=1)
+        u.count('R-shim-call', n)
+    emit_free_fn(u, D, 'locate_sourcemap_reference', 'detector::locate_sourcemap_reference', prep=prep_locate)
+    emit_free_fn(u, D, 'locate_sourcemap_reference_slice', 'detector::locate_sourcemap_reference_slice')
